@@ -37,6 +37,9 @@ type profile struct {
 	// inside the universe, switched to keep the other cases small
 	allowSchema bool // eino's own message / document types
 	allowTagKey bool // map key struct with json tags
+	// structs that embed a struct of an unexported type (outside: an error is fine, a
+	// silent loss of the promoted fields is not)
+	allowEmbedded bool
 	pNilPtr     float64
 	pNilIface   float64
 }
@@ -67,6 +70,7 @@ func newProfile(r *mon.Rand) profile {
 	p.allowHidden = r.Prob(0.05)
 	p.allowSchema = r.Prob(0.25)
 	p.allowTagKey = r.Prob(0.08)
+	p.allowEmbedded = r.Prob(0.12)
 	return p
 }
 
@@ -544,7 +548,11 @@ func (g *gen) value(t reflect.Type, depth int) reflect.Value {
 			f := t.Field(i)
 			if f.PkgPath != "" {
 				// unexported field (outside the universe): set through its address
-				g.feat("outside:unexported-field")
+				if f.Anonymous && hasPromotable(f.Type) {
+					g.feat("soft:embedded-unexported")
+				} else {
+					g.feat("outside:unexported-field")
+				}
 				if g.r.Prob(0.7) {
 					reflect.NewAt(f.Type, unsafe.Pointer(v.Field(i).UnsafeAddr())).Elem().Set(g.value(f.Type, depth+1))
 				}
@@ -606,7 +614,7 @@ func (g *gen) pointer(v reflect.Value, t reflect.Type, depth int) {
 	}
 	// recursive types must terminate: a pointer to a struct that (transitively)
 	// contains itself is nil once the budget is gone
-	if nilAt == 0 && g.exhausted(depth) && (base == rt[Nested]() || base == rt[Tree]()) {
+	if nilAt == 0 && g.exhausted(depth) && recursiveTypes[base] {
 		if d == 1 || g.p.allowKnown {
 			nilAt = 1
 			if d >= 2 {
